@@ -1,5 +1,6 @@
 /- Line-protocol front end for the BitIO model (`rd`, `dd`, `wr` lines). -/
 import VC2.Model.BitIO
+import VC2.Model.BitIOSeek
 namespace VC2.Model.BitIO
 open VC2
 
@@ -128,6 +129,38 @@ def wrOp (w : Writer) (op : String) : Except IOErr (String × Writer) :=
   | 'r' => pure (match w.rem with | none => "None" | some n => toString n, w)
   | _ => pure ("bad-op", w)
 
+/-- operations on the seekable writer model (`ws` lines): b0/b1, n<bits>,<value>, u<value>, B<len>, E, k<bytes>,<bits> (seek),
+    t (tell), r (bits remaining), f (flush) -/
+def wsOp (w : VC2.Model.BitIOSeek.WS) (op : String) : Except IOErr (String × VC2.Model.BitIOSeek.WS) :=
+  let arg := (op.drop 1).toString
+  match op.front with
+  | 'b' => do let w' ← w.writeBit (arg = "1"); pure ("ok", w')
+  | 'n' => match split2 arg ',' with
+    | some (a, b) => match a.toInt?, b.toInt? with
+      | some k, some v => do let w' ← w.writeNbits k v; pure ("ok", w')
+      | _, _ => pure ("bad-op", w)
+    | none => pure ("bad-op", w)
+  | 'u' => match arg.toInt? with
+    | some v => do let w' ← w.writeUint v; pure ("ok", w')
+    | none => pure ("bad-op", w)
+  | 'B' => match arg.toInt? with
+    | some k => do let w' ← w.blockBegin k; pure ("ok", w')
+    | none => pure ("bad-op", w)
+  | 'E' => do let (v, w') ← w.blockEnd; pure (toString v, w')
+  | 'k' => match split2 arg ',' with
+    | some (a, b) => match a.toNat?, b.toNat? with
+      | some by_, some bi => do let w' ← w.seek by_ bi; pure ("ok", w')
+      | _, _ => pure ("bad-op", w)
+    | none => pure ("bad-op", w)
+  | 't' => pure (s!"{w.tell.1}.{w.tell.2}", w)
+  | 'r' => pure (match w.rem with | none => "None" | some n => toString n, w)
+  | 'f' => pure ("ok", w.flush)
+  | _ => pure ("bad-op", w)
+
+def hexByte (n : Nat) : String :=
+  let d := fun (k : Nat) => "0123456789abcdef".toList.getD k '0'
+  String.ofList [d (n / 16 % 16), d (n % 16)]
+
 def runOps {σ : Type} (f : σ → String → Except IOErr (String × σ)) :
     σ → List String → List String → (List String × σ)
   | s, [], acc => (acc.reverse, s)
@@ -152,6 +185,10 @@ def handleIO (kind : String) (ws : List String) : String :=
     -- output is not compared
     if outs.getLast? = some "ERR:ZeroPastEnd" then " ".intercalate (outs ++ ["OUT:?"])
     else " ".intercalate (outs ++ ["OUT:" ++ bitsToStr w.flushed])
+  | "ws", ops =>
+    let (outs, w) := runOps wsOp ({} : VC2.Model.BitIOSeek.WS) ops []
+    if outs.getLast? = some "ERR:ZeroPastEnd" then " ".intercalate (outs ++ ["FILE:?"])
+    else " ".intercalate (outs ++ ["FILE:" ++ String.join (w.flush.file.map hexByte)])
   | _, _ => "bad-op"
 
 end VC2.Model.BitIO
